@@ -28,6 +28,7 @@ class Case:
         self.events = events
         self.md = md
         self.counter: Optional[int] = None  # value to give the global name counter before translating
+        self.lean_query: Optional[Dict[str, Any]] = None  # the query as the Lean reference reads it, when it differs in spelling (negative index)
         self.result: Optional[Dict[str, Any]] = None
         self.package: Optional[Dict[str, Any]] = None
         self.answer: Optional[Dict[str, Any]] = None
@@ -42,12 +43,15 @@ class Case:
         d = {"backend": self.backend, "query": self.query, "names": self.names, "form": self.form, "events": self.events, "source": self.source()}
         if self.counter is not None:
             d["counter"] = self.counter
+        if self.lean_query is not None:
+            d["lean_query"] = self.lean_query
         return d
 
     @staticmethod
     def from_json(j: Dict[str, Any]) -> "Case":
         c = Case(j["backend"], j["query"], j.get("names", []), j.get("form", "?"), j["events"])
         c.counter = j.get("counter")
+        c.lean_query = j.get("lean_query")
         return c
 
 
@@ -81,7 +85,7 @@ def request(case: Case, with_query=True) -> Dict[str, Any]:
         "op": "run",
         "package": {k: case.package[k] for k in ("body", "class_vars", "branches", "tree", "tokens")},
         "events": case.events,
-        "query": case.query if with_query else None,
+        "query": (case.lean_query or case.query) if with_query else None,
         "coll_types": qgen.coll_types(case.backend),
     }
 
@@ -106,31 +110,31 @@ def needs_gxx(c: "Case") -> bool:
     return any(str(o.get("fault", "")).startswith("stuck:opaque") for o in outs)
 
 
-def attach_gxx(cases: List["Case"], per_event: bool = True, job: bool = False) -> None:
-    """Run the REAL generated code under g++ against the mock EDM (tools/cppmock.py) for the given
-    cases: each event alone (`gxx_exec`) and/or all events as one job (`gxx_job`)."""
+def attach_gxx(cases: List["Case"], per_event: bool = True, job: bool = False, rev: bool = False) -> None:
+    """Run the REAL generated code (the per-event method's body as the rendered template has it) under g++ against
+    the mock EDM (tools/cppmock.py): each event alone (`gxx_exec`), all events as one job (`gxx_job`), the
+    reversed job (`gxx_rev`; event order as run). One compilation per case."""
     import cppmock
 
-    jobs, where = [], []
-    for c in cases:
-        if not c.result or not c.result.get("ok"):
-            continue
-        if per_event:
-            for i, ev in enumerate(c.events):
-                jobs.append((c.backend, c.result, [ev]))
-                where.append((c, "ev", i))
-        if job:
-            jobs.append((c.backend, c.result, c.events))
-            where.append((c, "job", 0))
-    outs = cppmock.run_many(jobs) if jobs else []
+    todo = [c for c in cases if c.result and c.result.get("ok")]
+    outs = cppmock.run_cases([(c.backend, c.result, c.events, per_event, job, rev) for c in todo]) if todo else []
     for c in cases:
         c.gxx_exec = [None] * len(c.events)
         c.gxx_job = None
-    for (c, kind, i), o in zip(where, outs):
-        if kind == "ev":
-            c.gxx_exec[i] = gxx_outcome(o, 0)
-        else:
-            c.gxx_job = o
+        c.gxx_rev = None
+    for c, o in zip(todo, outs):
+        if not o.get("compiled"):
+            bad = {"compiled": False, "errors": o.get("errors", "")}
+            c.gxx_exec = [gxx_outcome(bad, 0) for _ in c.events]
+            c.gxx_job = bad if job else None
+            c.gxx_rev = bad if rev else None
+            continue
+        if per_event:
+            c.gxx_exec = [gxx_outcome(x, 0) for x in o["per"]]
+        if job:
+            c.gxx_job = o["job"]
+        if rev:
+            c.gxx_rev = o["rev"]
 
 
 def gxx_outcome(o: Dict[str, Any], i: int) -> Dict[str, Any]:
